@@ -488,7 +488,14 @@ def members_for(mask, related, near, far, salt):
 def check(run):
     run.prove(MODULE, THEOREMS)
     run.source_tie(['SrcMulti'], 'GeoVerif.Props.C04Src',
-                   ['GV.C04Src.' + t for t in ('containsCoord_eq', 'containsSingle_eq', 'containsMulti_eq', 'intersectsSingle_eq', 'intersectsMulti_eq', 'src_containsCoord_iff', 'src_intersects_iff', 'src_contains_iff')])
+                   ['GV.C04Src.' + t for t in ('containsCoord_eq', 'containsSingle_eq', 'containsMulti_eq', 'intersectsSingle_eq', 'intersectsMulti_eq', 'src_containsCoord_iff', 'src_intersects_iff', 'src_contains_iff',
+                                               # round 2: bounds, __iter__, split (on the heap of property dictionaries)
+                                               'bounds_eq', 'src_bounds_is_union', 'src_bounds_perm', 'iter_eq', 'copyAll_eq_mapH',
+                                               'assignAll_eq_mapH', 'split_eq', 'src_split_spec', 'src_split_isolated')])
+    # the public relations: the translated gates of BaseShapeProtocol (C05's unit) composed with the translated member loops
+    run.source_tie(['SrcMulti', 'SrcBase', 'SrcTime'], 'GeoVerif.Props.C04SrcGate',
+                   ['GV.C04Src.' + t for t in ('src_multi_intersects', 'src_multi_contains', 'src_multi_dunder_contains',
+                                               'src_multi_contains_coord')])
     rng = run.rng
     T = {k: S.templates(k) for k in range(6)}
     nmax = 4
